@@ -8,6 +8,7 @@ import (
 	"path/filepath"
 	"strings"
 	"time"
+	"unicode/utf8"
 
 	"github.com/spf13/afero"
 )
@@ -18,6 +19,53 @@ type Metadata struct {
 	Size    int64
 	Hash    []byte
 	Meta    map[string]string
+}
+
+// metadataRecord is the JSON form of Metadata. JSON strings are UTF-8, header
+// values are bytes (a Latin-1 file name in Content-Disposition, say):
+// json.Marshal would replace what is not valid UTF-8 by U+FFFD. Such values
+// are kept as bytes (base64 in the file) in MetaBytes instead of Meta.
+type metadataRecord struct {
+	File      string
+	ModTime   time.Time
+	Size      int64
+	Hash      []byte
+	Meta      map[string]string
+	MetaBytes map[string][]byte `json:",omitempty"`
+}
+
+func (m Metadata) MarshalJSON() ([]byte, error) {
+	rec := metadataRecord{File: m.File, ModTime: m.ModTime, Size: m.Size, Hash: m.Hash, Meta: m.Meta}
+	for k, v := range m.Meta {
+		if utf8.ValidString(v) {
+			continue
+		}
+		if rec.MetaBytes == nil {
+			rec.MetaBytes = make(map[string][]byte)
+			rec.Meta = make(map[string]string, len(m.Meta))
+			for k2, v2 := range m.Meta {
+				rec.Meta[k2] = v2
+			}
+		}
+		rec.MetaBytes[k] = []byte(v)
+		delete(rec.Meta, k)
+	}
+	return json.Marshal(rec)
+}
+
+func (m *Metadata) UnmarshalJSON(bts []byte) error {
+	var rec metadataRecord
+	if err := json.Unmarshal(bts, &rec); err != nil {
+		return err
+	}
+	*m = Metadata{File: rec.File, ModTime: rec.ModTime, Size: rec.Size, Hash: rec.Hash, Meta: rec.Meta}
+	for k, v := range rec.MetaBytes {
+		if m.Meta == nil {
+			m.Meta = make(map[string]string)
+		}
+		m.Meta[k] = string(v)
+	}
+	return nil
 }
 
 type metaPath struct {
